@@ -826,9 +826,9 @@ def check_C18(tier, seed):
     for r in rules:
         for (lo, hi) in ranges:
             pool.append({"g": 1, "rule": r, "lo": lo, "hi": hi})
-    npool = 14 if tier == "quick" else 18
+    npool = 14 if tier == "quick" else 12
     H = 3 if tier == "quick" else 4
-    rounds = 4 if tier == "quick" else 8
+    rounds = 4 if tier == "quick" else 6
     g["rules"] = rules
     g["extra"] = _hist_code(rules)
     g["arms"] = ['        ("hi0", "__hist") => hi0::history(job),']
@@ -842,7 +842,7 @@ def check_C18(tier, seed):
         # two rules per pool, several sub-ranges each, so that results of the same type meet in most histories
         pairs = [("w", "s"), ("o", "l"), ("c", "p"), ("n", "s"), ("s", "o"), ("l", "w"), ("p", "n"), ("c", "o")]
         ra, rb = pairs[rd % len(pairs)]
-        must = [(0, 2), (0, 5), (0, L), (3, 5), (3, L), (9, 11)]
+        must = [(0, 2), (0, 5), (0, L), (3, 5), (3, L), (9, 11)] if tier == "quick" else [(0, 2), (0, 5), (0, L), (3, 5), (9, 11)]
         sub = []
         for r in (ra, rb):
             rs = must + rnd.sample([x for x in ranges if x not in must], npool // 2 - len(must))
